@@ -83,6 +83,7 @@ struct Scenario
 {
 	int producers, consumers, observers, perProducer;
 	bool allowClear, selective;
+	bool earlyStop; // the consumers leave as soon as the producers are done, whatever is still queued: the main thread, alone, drains the rest
 	int consumerOps[8][6]; // weights per consumer: process, processOne, processIf, processUntil, takeEvent, peekEvent(+clear)
 };
 
@@ -220,7 +221,7 @@ struct Runner
 		try {
 			for(;;) {
 				if(S->stop.load(std::memory_order_relaxed)) break;
-				if(S->producersLeft.load(std::memory_order_seq_cst) == 0 && q.emptyQueue()) break;
+				if(S->producersLeft.load(std::memory_order_seq_cst) == 0 && (sc.earlyStop || q.emptyQueue())) break;
 				int r = (int)rng.below((uint32_t)total), op = 0;
 				while(r >= w[op]) { r -= w[op]; ++op; }
 				consumeOp(tid, op, rng);
@@ -290,6 +291,7 @@ static void runScenario(uint64_t caseNo, Rng & rng, const char * cfgName, bool o
 	sc.perProducer = 10 + (int)rng.below(70);
 	sc.allowClear = rng.chance(1, 3);
 	sc.selective = rng.chance(1, 2);
+	sc.earlyStop = ! observerMode && rng.chance(1, 2);
 	for(int c = 0; c < 8; ++c) {
 		for(int i = 0; i < 6; ++i) sc.consumerOps[c][i] = rng.chance(1, 2) ? (int)rng.below(5) : 0;
 		if(observerMode) { sc.consumerOps[c][5] = sc.allowClear ? 1 : 0; } // peek adds nothing to the emptiness oracle
@@ -301,7 +303,7 @@ static void runScenario(uint64_t caseNo, Rng & rng, const char * cfgName, bool o
 	const int total = sc.producers * sc.perProducer;
 
 	oplog(std::string("config ") + cfgName + ": producers=" + num(sc.producers) + " x " + num(sc.perProducer) + " events, consumers=" + num(sc.consumers) + " observers=" + num(sc.observers)
-		+ " clearEvents=" + num(sc.allowClear) + " selective-predicates=" + num(sc.selective) + " sched.mode=" + num(sd.mode.load()) + " tag=" + (sd.mode.load() == 2 ? tags().name[sd.tag.load()] : "-")
+		+ " clearEvents=" + num(sc.allowClear) + " selective-predicates=" + num(sc.selective) + " consumers-leave-with-the-producers=" + num(sc.earlyStop) + " sched.mode=" + num(sd.mode.load()) + " tag=" + (sd.mode.load() == 2 ? tags().name[sd.tag.load()] : "-")
 		+ " role=" + num(sd.role.load()) + " nth=" + num(sd.nth.load()) + " delayUs=" + num(sd.delayUs.load()));
 	for(int c = 0; c < sc.consumers; ++c) {
 		std::string s = "  consumer " + num(c) + " op weights process/processOne/processIf/processUntil/takeEvent/peek|clear =";
@@ -343,6 +345,18 @@ static void runScenario(uint64_t caseNo, Rng & rng, const char * cfgName, bool o
 		// final drain by the main thread
 		sched().mode = 0;
 		int guard = 0;
+		{
+			// every other thread has been joined: this call is alone with the queue, so the sequential rule applies to it exactly -
+			// process() dispatches everything that is pending and says so
+			const long long left = (long long)Access::queueSize(R->q);
+			if(left > 0) {
+				count("drain.events_left_for_the_main_thread", (uint64_t)left);
+				count("drain.runs_with_events_left");
+				const bool r = R->q.process();
+				if(! r) violation("drain:process-returned-false-with-events-pending", "all producers and consumers have finished, " + num(left) + " event(s) are pending, and process() called by the only remaining thread returned false");
+				else if(Access::queueSize(R->q) != 0) violation("drain:process-left-events-pending", "all producers and consumers have finished; process() called by the only remaining thread returned true but left " + num((long long)Access::queueSize(R->q)) + " of " + num(left) + " pending event(s) in the queue");
+			}
+		}
 		while(! R->q.emptyQueue() && guard++ < 100000) R->q.process();
 		const bool finalEmpty = R->q.emptyQueue();
 		if(! finalEmpty) violation("drain:queue-not-empty-after-drain", "emptyQueue() still false after the final drain");
